@@ -119,6 +119,27 @@ def model_family(rep, tier, seed):
         if so != stepped or sl != stepped:
             rep.fail(f"C06/step/{kinds}", f"{req['stmts']}: re-evaluation gives original {so and absval.short(so)}, loaded {sl and absval.short(sl)}, model {absval.short(stepped)}", replay); continue
         tally["exact"] += 1
+    # ---- compile is a function of the interpreter's state: calling Interpreter::compile() after every statement as well (and so
+    #      twice at the end) must not change what the final image does (REPL / watch mode recompile the same interpreter)
+    plain = {i: resp for i, (resp, oc) in enumerate(outs) if oc == "ok" and resp}
+    idx = [i for i, cs in enumerate(cases) if i in plain and plain[i].get("compile", {}).get("r") == "ok"]
+    if len(idx) > 4000: idx = sorted(rnd.sample(idx, 4000))
+    reqs2 = [{"id": k, "mode": "bytecode", "stmts": reqs[i]["stmts"], "precompile": list(range(1, len(reqs[i]["stmts"]) + 1))} for k, i in enumerate(idx)]
+    outs2 = execpool.run_requests(reqs2, nworkers=16, timeout=25, mem_limit_mb=4096)
+    def outcome(r):
+        return tuple((k, (r.get(k) or {}).get("r"), json.dumps((r.get(k) or {}).get("v"), sort_keys=True)) for k in ("compile", "run", "step_orig", "step_loaded")) + \
+               (("load", (r.get("load") or {}).get("r")), ("consts", ((r.get("load") or {}).get("consts") or {}).get("r")))
+    for i, req2, (resp2, oc2) in zip(idx, reqs2, outs2):
+        kinds = "+".join(sorted({s_["s"] for s_ in cases[i]["prog"]}))
+        replay = {"stmts": req2["stmts"], "precompile": req2["precompile"]}
+        if oc2 != "ok" or resp2 is None:
+            rep.fail(f"C06/recompile/host-{oc2}/{kinds}", f"{req2['stmts']} with a compile() after every statement: process {oc2}", replay); continue
+        if outcome(resp2) != outcome(plain[i]):
+            a, b = outcome(plain[i]), outcome(resp2)
+            d = next((x, y) for x, y in zip(a, b) if x != y)
+            rep.fail(f"C06/recompile/{kinds}", f"{req2['stmts']}: compiling after every statement changes what the final image does: {d[0]} (single compile) vs {d[1]}", replay); continue
+        tally["recompile_same"] += 1
+    rep.cov["recompile_programs"] = len(idx); rep.cov["recompile_same_as_single_compile"] = tally["recompile_same"]
     ids = collections.defaultdict(set)
     for op, s in fx.items():
         if len(s) != 1: rep.fail("C06/function-id/not-functional", f"operator {op} compiled to several function ids {s}", {"op": op})
